@@ -61,7 +61,13 @@ func (w *World) populate(nusers int) []string {
 	nameScheme := r.Choose("pop-names", 2) // the second scheme: names that are dotted extensions of another user's name
 	for i := 0; i < nusers; i++ {
 		u := [][]string{{"root", "alice", "bob", "a.user"}, {"root", "alice", "alice.smith", "alice.ops.example.org"}}[nameScheme][i]
-		set := w.cfg.Sets[r.Choose("pop-set", len(w.cfg.Sets))]
+		var usable []PSet
+		for _, s := range w.cfg.Sets {
+			if !(s.Algo == algoScrypt && s.Cost == 0) {
+				usable = append(usable, s) // C02 may add a set whose key derivation always fails
+			}
+		}
+		set := usable[r.Choose("pop-set", len(usable))]
 		pw := fmt.Sprintf("initial-%s-%d", u, r.Choose("pop-pw", 3))
 		salt := make([]byte, set.SaltLen())
 		for j := range salt {
